@@ -379,6 +379,8 @@ class _JSONPipeCommunicator:
                     return obj.tolist()
                 if isinstance(obj, Path):
                     return str(obj)
+                if isinstance(obj, np.generic):
+                    return obj.item()
                 return super().default(obj)
 
         if self._write_fd is None:
